@@ -55,26 +55,28 @@ def refTriplets : List (Nat × Nat × Nat) :=
 
 def triplets (w : Nat) : List (Nat × Nat × Nat) := refTriplets.filter fun t => t.2.2 < w
 
-/-- byte at position p -/
-def at' (data : List Nat) (p : Nat) : Nat := data.getD p 0
+/-- byte at position p (the byte string is held as an array only to make this access O(1) in the compiled driver) -/
+def at' (data : Array Nat) (p : Nat) : Nat := data.getD p 0
 
 /-- positions of the last byte of every full window -/
-def ends (w : Nat) (data : List Nat) : List Nat := (List.range data.length).filter fun e => w ≤ e + 1
+def ends (w : Nat) (data : Array Nat) : List Nat := (List.range data.size).filter fun e => w ≤ e + 1
 
 /-- all triplet hashes of the input -/
-def hashes (w : Nat) (data : List Nat) : List Nat :=
+def hashes (w : Nat) (data : Array Nat) : List Nat :=
   (ends w data).flatMap fun e =>
     (triplets w).map fun t => bMapping t.1 (at' data e) (at' data (e - t.2.1)) (at' data (e - t.2.2))
 
 /-- the bucket array: bucket v = number of triplets hashing to v -/
-def buckets (w : Nat) (data : List Nat) : List Nat := (List.range 256).map fun b => (hashes w data).count b
+def buckets (w : Nat) (data : Array Nat) : List Nat :=
+  let hs := hashes w data
+  (List.range 256).map fun b => hs.count b
 
 /-- new value of checksum byte t -/
 def ckNew (c0 c1 : Nat) (old : List Nat) : Nat → Nat
   | 0 => bMapping 0 c0 c1 (old.getD 0 0)
   | t + 1 => bMapping (ckNew c0 c1 old t) c0 c1 (old.getD (t + 1) 0)
 
-def checksum (w chklen : Nat) (data : List Nat) : List Nat :=
+def checksum (w chklen : Nat) (data : Array Nat) : List Nat :=
   (ends w data).foldl (fun ck e => (List.range chklen).map (ckNew (at' data e) (at' data (e - 1)) ck))
     (List.replicate chklen 0)
 
@@ -92,7 +94,7 @@ def code (q1 q2 q3 x : Nat) : Nat := if x > q3 then 3 else if x > q2 then 2 else
 def tlsh (lcap : Nat → Nat) (eff w chklen : Nat) (data : List Nat) (force : Bool) : Option (List Nat) :=
   let n := data.length
   if n < 50 ∨ (force = false ∧ n < 256) then none else
-  let bk := (buckets w data).take eff
+  let bk := (buckets w data.toArray).take eff
   let populated := (bk.filter (0 < ·)).length
   if tooFew eff populated then none else
   let q1 := kth bk (eff / 4 - 1)
@@ -102,7 +104,7 @@ def tlsh (lcap : Nat → Nat) (eff w chklen : Nat) (data : List Nat) (force : Bo
     let i := eff / 4 - 1 - m
     code q1 q2 q3 (bk.getD (4 * i) 0) + 4 * code q1 q2 q3 (bk.getD (4 * i + 1) 0)
       + 16 * code q1 q2 q3 (bk.getD (4 * i + 2) 0) + 64 * code q1 q2 q3 (bk.getD (4 * i + 3) 0)
-  some ((checksum w chklen data).map swapNibbles
+  some ((checksum w chklen data.toArray).map swapNibbles
         ++ [swapNibbles (lcap n % 256), (q1 * 100 / q3 % 16) * 16 + q2 * 100 / q3 % 16]
         ++ body)
 
